@@ -93,7 +93,8 @@ const D_DUPD: u64 = dom("pkt.dupdelay");
 
 impl NetCore {
     pub fn new(plan: &Plan) -> Self {
-        let n = plan.nodes.len();
+        // sessions built outside a world (builder sequences) still need an inbox
+        let n = plan.nodes.len().max(4);
         NetCore {
             now_us: 0,
             seed: plan.seed,
